@@ -59,10 +59,12 @@ class Scope:
 
     def __init__(self):
         self.m = {}
+        self.out = {}  # output column name -> term (what ORDER BY label references resolve to)
 
     def merged(self, other):
         s = Scope()
         s.m = {**self.m, **other.m}
+        s.out = {**self.out, **other.out}
         return s
 
 
@@ -80,6 +82,11 @@ def expr(e, sc):
     if isinstance(e, elements.Label):
         return expr(e.element, sc)
     if isinstance(e, elements.Grouping):
+        return expr(e.element, sc)
+    if isinstance(e, elements._label_reference):
+        name = getattr(e.element, "name", None)
+        if isinstance(e.element, elements.Label) and name in sc.out:
+            return sc.out[name]
         return expr(e.element, sc)
     if isinstance(e, elements.BindParameter):
         return _val(e.value)
@@ -169,6 +176,8 @@ def from_rows(f, db):
     if isinstance(f, selectable.Subquery):
         tab = select(f.element, db)
         return [(s.p, _scope_of(f, s.v), (("sub", id(f), i),)) for i, s in enumerate(tab.slots)]
+    if isinstance(f, selectable.FromGrouping):
+        return from_rows(f.element, db)
     if isinstance(f, selectable.Join):
         L = from_rows(f.left, db)
         R = from_rows(f.right, db)
@@ -184,6 +193,8 @@ def from_rows(f, db):
 
 
 def _leaf_froms(f):
+    if isinstance(f, selectable.FromGrouping):
+        return _leaf_froms(f.element)
     if isinstance(f, selectable.Join):
         return _leaf_froms(f.left) + _leaf_froms(f.right)
     return [f]
@@ -220,6 +231,8 @@ def select(q, db):
             raise OutsideModel(str(q.keyword))
         scopes = [_scope_named(q, s.v) for s in slots]
         return _finish(q, slots, scopes, names)
+    if isinstance(q, selectable.SelectStatementGrouping):
+        return select(q.element, db)
     if not isinstance(q, selectable.Select):
         raise OutsideModel(type(q).__name__)
     froms = q.get_final_froms()
@@ -251,6 +264,8 @@ def select(q, db):
 
 
 def _out_names(q):
+    if isinstance(q, selectable.SelectStatementGrouping):
+        return _out_names(q.element)
     if isinstance(q, selectable.CompoundSelect):
         return _out_names(q.selects[0])
     return [c.name for c in q._raw_columns]
@@ -261,20 +276,32 @@ def _scope_named(q, vals):
     for c in q.selected_columns:
         if c.name in vals:
             s.m[(id(c.table), c.name)] = vals[c.name]
+            s.out[c.name] = vals[c.name]
     return s
 
 
 def _strip_order(o):
     desc = False
-    while isinstance(o, elements.UnaryExpression) and o.modifier is not None:
-        if o.modifier is operators.desc_op:
-            desc = True
-        elif o.modifier is operators.asc_op:
-            desc = False
+    while True:
+        if isinstance(o, elements._label_reference):
+            o = o.element
+        elif isinstance(o, elements.UnaryExpression) and o.modifier is not None:
+            if o.modifier is operators.desc_op:
+                desc = True
+            elif o.modifier is operators.asc_op:
+                desc = False
+            else:
+                raise OutsideModel(str(o.modifier))
+            o = o.element
         else:
-            raise OutsideModel(str(o.modifier))
-        o = o.element
-    return o, desc
+            return o, desc
+
+
+def _order_key(o, sc):
+    """Value of an ORDER BY element (modifiers stripped): a label resolves to the output column."""
+    if isinstance(o, elements.Label) and o.name in sc.out:
+        return sc.out[o.name]
+    return expr(o, sc)
 
 
 def _order_uses_selected(o, q):
@@ -307,7 +334,7 @@ def _finish(q, slots, scopes, names):
         ks = []
         for o in order:
             o, desc = _strip_order(o)
-            ks.append((as_int(expr(o, sc)), desc))
+            ks.append((as_int(_order_key(o, sc)), desc))
         keys.append(ks)
 
     def before(i, j):
